@@ -67,6 +67,7 @@ func cmdVerify(args []string) {
 	dumpAll := fs.Bool("dumpall", false, "dump all queries")
 	verbose := fs.Bool("v", false, "list every obligation")
 	seed := fs.Int("seed", 0, "solver seed")
+	fs.BoolVar(&debugReachAll, "reachall", false, "debug: add a reachability check at every block")
 	fs.Parse(args)
 	start := time.Now()
 	eng, err := NewEngine(repoDir(), verifDir()+"/contracts")
